@@ -8,7 +8,7 @@ open Panqec
     (`none` = not my op); the first that answers wins. -/
 
 def handlers : List (List String → Option String) :=
-  [Drv.handleBits, Drv.Sim.handleSim, Drv.Spec.handleSpec]
+  [Drv.handleBits, Drv.handleSim]
 
 def handle (line : String) : String :=
   let toks := (line.trimAscii.toString.splitOn " ").filter (· ≠ "")
